@@ -152,13 +152,15 @@ def _arc_distance_robust(seg, p):
     return math.sqrt(best)
 
 
-def arc_distances(seg, pts, tol=None, n=16):
+def arc_distances(seg, pts, tol=None, n=32):
     """Distance of each point to a library Arc, observed only through its public npoint(): dense sampling, two
     rounds of parabolic refinement of the nearest parameter, then the distance to the local 2-chord polyline
-    (sagitta error ~ 3e-9 of the radius).  The fast estimate can be off on extremely flat ellipses, so any point
-    it puts farther than tol is measured again by robust bracket narrowing before it may count as a deviation."""
+    (sagitta error ~ 3e-9 of the radius).  The fast estimate can be off on extremely flat ellipses.  So a point it
+    puts farther than tol is first compared with a rigorous lower bound (distance to the sampled polyline minus
+    the largest sagitta of its chords): if even that exceeds tol the point is off the arc; otherwise it is measured
+    again by robust bracket narrowing before it may count as a deviation."""
     ts = [i / float(n) for i in range(n + 1)]
-    P = seg.npoint(ts)
+    P = [_pt(q) for q in seg.npoint(ts)]
     est = []
     for p in pts:
         d = [(q[0] - p[0]) ** 2 + (q[1] - p[1]) ** 2 for q in P]
@@ -188,9 +190,15 @@ def arc_distances(seg, pts, tol=None, n=16):
     for j, p in enumerate(pts):
         a, b, c = [_pt(q) for q in Q[3 * j:3 * j + 3]]
         out.append(min(_seg_dist(p, a, b), _seg_dist(p, b, c)))
-    if tol is not None:
+    if tol is not None and any(not (o <= tol) for o in out):
+        # sagitta of the chords P[2k]..P[2k+2] measured at the sample between them bounds (generously) the
+        # sagitta of every chord of the finer polyline through all samples
+        sag = max(_seg_dist(P[k + 1], P[k], P[k + 2]) for k in range(0, n - 1, 2))
         for j, p in enumerate(pts):
             if not (out[j] <= tol):
+                poly = min(_seg_dist(p, P[k], P[k + 1]) for k in range(n))
+                if poly - sag > tol:
+                    continue  # certainly farther than tol from this arc
                 out[j] = min(out[j], _arc_distance_robust(seg, p))
     return out
 
@@ -742,9 +750,17 @@ C03_EXPLANATIONS = {
         "(Length.__iadd__ raises). Specification: the use behaves as a group with translate(x, y); the document "
         "is valid. Genuine library defect (the document-level face of the Matrix/Length defect of C04).",
     "use-xy-length-shape-dropped":
-        "Same root cause as use-xy-length-ValueError, but the ValueError is raised while the referenced *shape* "
-        "(which has its own transform) is constructed, where SVG.parse swallows ValueError and silently drops the "
-        "shape: the referenced element is not rendered at all. Genuine library defect.",
+        "Same root cause as use-xy-length-ValueError (a <use> x/y with a unit or percentage becomes "
+        "'translate(<Length>, <Length>)' and the matrix product with a transform that has a translation part adds a "
+        "unit-bearing Length to a float, ValueError), but the ValueError is swallowed by SVG.parse: where it is "
+        "raised while the referenced shape (which has its own transform) is constructed the shape is silently "
+        "dropped; in trees where parse also treats a ValueError from constructing the Use itself as 'element in "
+        "error, not rendered' the whole use instance disappears. Either way a valid document loses rendered shapes. "
+        "Genuine library defect.",
+    "svg-xy-length-inherited-by-use-shape-dropped":
+        "Combination of svg-xy-inherited-by-descendant and use-xy-length-shape-dropped: a <use> without x/y inside "
+        "an <svg> whose x or y carries a unit or percentage inherits that text as its own x/y, hits the Length + "
+        "float ValueError, and is silently not rendered. Genuine library defect (two causes).",
     "nested-svg-xy-ignored-without-viewbox":
         "A nested <svg x= y=> without a viewBox establishes a viewport whose origin is (x, y) (SVG 2 8.2: "
         "translate(e-x, e-y) also when there is no viewBox); SVG.parse only applies a viewport transform when a "
@@ -806,6 +822,8 @@ def c03_classify(cat, text, cfg):
         key = "svg-xy-length-inherited-by-use-ValueError"
     elif cat == "shape-missing" and "use-len" in F:
         key = "use-xy-length-shape-dropped"
+    elif cat == "shape-missing" and "use-len-inherited" in F:
+        key = "svg-xy-length-inherited-by-use-shape-dropped"
     elif cat in ("shape-missing", "shape-list") and "svg-zero-size-viewbox" in F:
         key = "nested-svg-zero-size-aborts-parse"
     elif cat in ("shape-extra", "shape-list") and "svg-zero-size-noviewbox" in F:
